@@ -360,6 +360,46 @@ func hasEmbeddedAssign(e *lang.Expr, top bool) bool {
 	return hasEmbeddedAssign(e.L, false) || hasEmbeddedAssign(e.R, false)
 }
 
+// c02Fixed: pairs of distinct names of equal length that collide under a common
+// 32-bit string hash, in every role the property gives a name: variable read and
+// written next to the other variable, field next to the variable, unknown name
+// at toplevel next to the variable.
+func c02Fixed(c *core.Ctx, run func(i int64, p *lang.Program, tag string)) int64 {
+	var i int64
+	num := func(v int) *lang.Expr { return lang.Lit(lang.IntLit(v)) }
+	vr := func(n string, e *lang.Expr) *lang.Stmt { return &lang.Stmt{Kind: lang.SVar, Name: n, E: e} }
+	pr := func(e *lang.Expr) *lang.Stmt { return &lang.Stmt{Kind: lang.SPrint, E: e} }
+	ex := func(e *lang.Expr) *lang.Stmt { return &lang.Stmt{Kind: lang.SExpr, E: e} }
+	for _, hc := range lang.HashCollisions {
+		for _, ab := range [][2]string{{hc.A, hc.B}, {hc.B, hc.A}} {
+			a, b := ab[0], ab[1]
+			progs := []*lang.Program{
+				// b is a field while a is a live variable
+				{Stmts: []*lang.Stmt{vr(a, num(1)),
+					{Kind: lang.SDef, Name: "blk", BlockName: lang.StrLit("n"), Body: []*lang.Stmt{ex(lang.Assign(b, num(2))), ex(lang.Assign("sum", lang.Bin("+", lang.Id(a), lang.Id(b)))), pr(lang.Id(b))}},
+					pr(lang.Id(a))}},
+				// b is unknown at toplevel while a is a live variable
+				{Stmts: []*lang.Stmt{vr(a, num(1)), pr(lang.Id(b))}},
+				{Stmts: []*lang.Stmt{vr(a, num(1)), ex(lang.Assign(b, num(2))), pr(lang.Id(a))}},
+				// both are variables of one scope
+				{Stmts: []*lang.Stmt{vr(a, num(1)), vr(b, num(2)), ex(lang.Assign(a, num(10))), pr(lang.Id(a)), pr(lang.Id(b)),
+					ex(lang.Assign(b, lang.Bin("+", lang.Id(a), num(5)))), pr(lang.Id(a)), pr(lang.Id(b))}},
+				// variables of different scopes
+				{Stmts: []*lang.Stmt{vr(b, num(7)),
+					{Kind: lang.SDef, Name: "blk", Body: []*lang.Stmt{vr(a, num(1)), ex(lang.Assign(b, lang.Bin("+", lang.Id(b), lang.Id(a)))), ex(lang.Assign(a, num(3))), pr(lang.Id(a)), pr(lang.Id(b))}},
+					pr(lang.Id(b))}},
+			}
+			for _, p := range progs {
+				if c.Mine(i) {
+					run(i, p, "hash_colliding_names")
+				}
+				i++
+			}
+		}
+	}
+	return i
+}
+
 func init() {
 	core.Register(&core.Check{
 		ID:    "C02",
@@ -367,7 +407,7 @@ func init() {
 		Rule: "reference-model monitor on scope-centred programs: 1-14 toplevel statements, blocks nested to 5, names drawn from a pool of 4 so that shadowing, re-declaration, " +
 			"'var x = x+1', variable/field name reuse and embedded assignments are frequent; 6% of programs carry an injected static error (duplicate declaration, undefined name at toplevel). " +
 			"The reference has an environment chain and no slots. Compared: compile outcome and position of the first diagnostic, output, blocks, runtime-error class and line:column. " +
-			"distinct = hash of source; non-trivial = specified verdict and >= 1 declaration executed or a static error predicted Also: through the VM hook, the operand-stack depth right after every executed print must equal the number of variables the reference has alive there; identifiers of 63..256 bytes and names starting with '_'; 127..300 filler variables in front of 1 in 25 programs (more than 128 / 240 live locals).",
+			"distinct = hash of source; non-trivial = specified verdict and >= 1 declaration executed or a static error predicted Also: through the VM hook, the operand-stack depth right after every executed print must equal the number of variables the reference has alive there; identifiers of 63..256 bytes and names starting with '_'; 127..300 filler variables in front of 1 in 25 programs (more than 128 / 240 live locals); pairs of equal-length names colliding under a common 32-bit string hash (internal/lang/collide_table.go) as variable/variable, variable/field and variable/unknown name.",
 		Assumptions:   []string{"DESIGN §5.4 scoping rules are the language definition"},
 		MinNontrivial: 1000,
 		Run: func(c *core.Ctx) {
@@ -399,6 +439,7 @@ func init() {
 					return cs.Verdict.Kind == lang.Reject || (cs.Oc != nil && cs.Oc.Decls >= 1)
 				},
 				extra: c02Extra,
+				fixed: c02Fixed,
 			})
 		},
 	})
